@@ -27,6 +27,8 @@ func runC06(c *Ctx) {
 	parseInputIsTheFileText(c, "C06.R7", "parser/v2", "cmd/templ/lspcmd/proxy", "cmd/templ/generatecmd")
 	c.floor("C06.R7", 3)
 	committedPrefixParsers(c, "C06.R4")
+	parsedTextRange(c, "C06.R9")
+	lastElementGuarded(c, "C06.R10")
 	expressionTextFromInput(c, "C06.R5")
 	lookAheadTestsTheLineAsRead(c, "C06.R8")
 	lookaheadParsersFlat(c, "C06.R6")
@@ -234,7 +236,14 @@ func runC06(c *Ctx) {
 				subs++
 			}
 		}
-		if subs == 2 && fd.Type.Params.NumFields() == 2 {
+		// (the clamping may be a step of its own that is handed the content and the two positions)
+		hasContent := false
+		for _, prm := range paramObjs(ginfo, fd) {
+			if prm != nil && isStringType(prm.Type()) {
+				hasContent = true
+			}
+		}
+		if subs == 2 && hasContent {
 			wrap = fd
 		}
 	}
@@ -243,8 +252,10 @@ func runC06(c *Ctx) {
 	} else {
 		key := funcKey(gp, wrap)
 		var content types.Object
-		if len(wrap.Type.Params.List) > 0 && len(wrap.Type.Params.List[0].Names) > 0 {
-			content = ginfo.Defs[wrap.Type.Params.List[0].Names[0]]
+		for _, prm := range paramObjs(ginfo, wrap) {
+			if prm != nil && isStringType(prm.Type()) && content == nil {
+				content = prm
+			}
 		}
 		lastSub := token.NoPos
 		for _, st := range wrap.Body.List {
